@@ -1856,6 +1856,12 @@ static int run_zap(struct vf_rng *r)
 	}
 	idle_frames(3);
 	vf_sample("%s", desc);
+	if (n_rx >= MAXRX - 40 || n_gap_frames >= MAXGAP) {
+		/* a phase may have been cut short before its observation point: cannot happen with the sizes above */
+		vf_fail("harness:C13:zap-history-too-long", "%d receptions, %d discontinuities; %s", n_rx, n_gap_frames, desc);
+		del_decoder();
+		return 0;
+	}
 	rules_R1_R2_R3();
 	judge_zap();
 	del_decoder();
